@@ -17,6 +17,10 @@ from typing import Any, Callable
 
 import z3
 
+import sys as _sys
+
+_sys.set_int_max_str_digits(0)  # z3 numerals are built from decimal strings; contracts mention 10**4300
+
 
 class PathEnd(BaseException):
     """The current path ends here (loop back-edge cut, assume(False), ...)."""
